@@ -26,6 +26,7 @@ def check(chk):
     from . import shared
     shared.cache_rules(chk, m, 'R5.8')
     shared.sign_rules(chk, m, 'R5.9')
+    shared.grouping_rules(chk, m, 'R5.10')
     chk.decline('the values bound for concrete invocations (value-level)')
     chk.decline('the mandatory first-token loops of readInteger/readDecimal on a missing number, and '
                 'readKeyword dropping an already expanded element after a missing unit (non-conforming calls)')
